@@ -148,7 +148,7 @@ FLRollback(txid) ==
    LET mine == {r \in pend : r[1] = txid} IN
    [pend |-> pend \ mine,
     allocs |-> [q \in ({q \in DOMAIN allocs : allocs[q] # txid} \cup {r[2] : r \in {m \in mine : m[3] # 0}}) |->
-                 IF q \in DOMAIN allocs /\ allocs[q] # txid THEN allocs[q] ELSE (CHOOSE r \in mine : r[2] = q)[3]]]
+                 IF q \in {r[2] : r \in {m \in mine : m[3] # 0}} THEN (CHOOSE r \in mine : r[2] = q)[3] ELSE allocs[q]]]
 \* user rollback (tx.go:302-320): only possible before anything was allocated
 RollbackUser == /\ ~crashed /\ w # Nil /\ w.phase = "open" /\ w' = Nil
                 /\ UNCHANGED <<disk, vol, tree, flp, snap, free, pend, allocs, readers, acked, crashed, failed>>
